@@ -50,6 +50,7 @@ type ReverseSuffixSetSearcher struct {
 	suffixLiterals *literal.Seq // All suffix literals
 	matchStartZero bool         // True if pattern starts with .* (match always starts at 0)
 	revCachePool   sync.Pool
+	fwdCachePool   sync.Pool // forward DFA caches for end verification
 }
 
 // NewReverseSuffixSetSearcher creates a reverse suffix set searcher.
@@ -124,175 +125,31 @@ func NewReverseSuffixSetSearcher(
 	s.revCachePool = sync.Pool{
 		New: func() any { return s.reverseDFA.NewCache() },
 	}
+	s.fwdCachePool = sync.Pool{
+		New: func() any { return s.forwardDFA.NewCache() },
+	}
 	return s, nil
 }
 
-// Find searches using Teddy suffix prefilter + reverse DFA.
-//
-// For greedy matching (like `.*`), we need to find the LAST matching suffix.
-// However, with multiple suffix lengths, we iterate through all candidates
-// and track the best (rightmost) match.
-// Includes anti-quadratic guard to prevent O(n^2) behavior with many suffix false positives.
+// Find returns the leftmost match: the first suffix candidate that the reverse DFA can extend to a
+// match start decides the start; the end is then taken from a forward scan from that start (greedy
+// prefixes such as .+ can run over several suffix occurrences), or, for `.*` followed by nothing but
+// the literal set, from the last suffix occurrence on the candidate's line.
 func (s *ReverseSuffixSetSearcher) Find(haystack []byte) *Match {
 	if len(haystack) == 0 {
 		return nil
 	}
-
-	// Acquire cache once for the entire candidate loop
-	revCache := s.revCachePool.Get().(*lazy.DFACache)
-	defer s.revCachePool.Put(revCache)
-
-	// For greedy matching, find the LAST suffix candidate
-	// We scan forward and keep track of the last valid match
-	var lastMatch *Match
-	start := 0
-	minStart := 0 // Anti-quadratic guard for reverse scans
-
-	for {
-		// Find next suffix candidate
-		pos := s.prefilter.Find(haystack, start)
-		if pos == -1 {
-			break
-		}
-
-		// Get the length of the matched suffix literal
-		suffixLen := s.getSuffixLen(haystack, pos)
-		if suffixLen == 0 {
-			start = pos + 1
-			continue
-		}
-
-		suffixEnd := pos + suffixLen
-		if suffixEnd > len(haystack) {
-			suffixEnd = len(haystack)
-		}
-
-		// For unanchored patterns, .* cannot cross \n boundaries.
-		// Match starts at the beginning of the line containing the suffix.
-		if s.matchStartZero {
-			matchStart := lineStartBefore(haystack, 0, pos)
-			lastMatch = NewMatch(matchStart, suffixEnd, haystack)
-		} else {
-			// Use reverse DFA with anti-quadratic guard to find match start
-			matchStart := s.reverseDFA.SearchReverseLimited(revCache, haystack, 0, suffixEnd, minStart)
-			if matchStart == lazy.SearchReverseLimitedQuadratic {
-				// Quadratic behavior detected - fall back to PikeVM
-				pStart, pEnd, found := s.pikevm.Search(haystack)
-				if found {
-					return NewMatch(pStart, pEnd, haystack)
-				}
-				return lastMatch
-			}
-			if matchStart >= 0 {
-				lastMatch = NewMatch(matchStart, suffixEnd, haystack)
-			}
-			// Update anti-quadratic guard
-			if suffixEnd > minStart {
-				minStart = suffixEnd
-			}
-		}
-
-		start = pos + 1
-		if start >= len(haystack) {
-			break
-		}
-	}
-
-	return lastMatch
+	return s.FindAt(haystack, 0)
 }
 
 // FindAt searches for a match starting from position 'at'.
 // Includes anti-quadratic guard to prevent O(n^2) behavior with many suffix false positives.
 func (s *ReverseSuffixSetSearcher) FindAt(haystack []byte, at int) *Match {
-	if at >= len(haystack) {
+	start, end, found := s.FindIndicesAt(haystack, at)
+	if !found {
 		return nil
 	}
-
-	// Acquire cache once for the entire candidate loop
-	revCache := s.revCachePool.Get().(*lazy.DFACache)
-	defer s.revCachePool.Put(revCache)
-
-	searchStart := at
-	minStart := at // Anti-quadratic guard
-	for {
-		// Find next suffix candidate starting from searchStart
-		pos := s.prefilter.Find(haystack, searchStart)
-		if pos == -1 {
-			return nil
-		}
-
-		// Get the length of the matched suffix literal
-		suffixLen := s.getSuffixLen(haystack, pos)
-		if suffixLen == 0 {
-			searchStart = pos + 1
-			if searchStart >= len(haystack) {
-				return nil
-			}
-			continue
-		}
-
-		suffixEnd := pos + suffixLen
-		if suffixEnd > len(haystack) {
-			suffixEnd = len(haystack)
-		}
-
-		// For unanchored patterns, .* cannot cross \n boundaries.
-		// Match starts at the beginning of the line containing the suffix.
-		// For greedy semantics, find the LAST suffix on this line.
-		if s.matchStartZero {
-			matchStart := lineStartBefore(haystack, at, pos)
-			// Find line end
-			lineEndRel := bytes.IndexByte(haystack[pos:], '\n')
-			var lineEnd int
-			if lineEndRel == -1 {
-				lineEnd = len(haystack)
-			} else {
-				lineEnd = pos + lineEndRel
-			}
-			// Scan line for the last valid suffix candidate
-			lastSuffixEnd := suffixEnd
-			scan := pos + 1
-			for scan < lineEnd {
-				nextPos := s.prefilter.Find(haystack, scan)
-				if nextPos == -1 || nextPos >= lineEnd {
-					break
-				}
-				nextLen := s.getSuffixLen(haystack, nextPos)
-				if nextLen > 0 {
-					nextEnd := nextPos + nextLen
-					if nextEnd <= lineEnd {
-						lastSuffixEnd = nextEnd
-					}
-				}
-				scan = nextPos + 1
-			}
-			return NewMatch(matchStart, lastSuffixEnd, haystack)
-		}
-
-		// Use reverse DFA with anti-quadratic guard to find match start
-		matchStart := s.reverseDFA.SearchReverseLimited(revCache, haystack, at, suffixEnd, minStart)
-		if matchStart >= 0 {
-			return NewMatch(matchStart, suffixEnd, haystack)
-		}
-		if matchStart == lazy.SearchReverseLimitedQuadratic {
-			// Quadratic behavior detected - fall back to PikeVM
-			start, end, found := s.pikevm.SearchAt(haystack, at)
-			if found {
-				return NewMatch(start, end, haystack)
-			}
-			return nil
-		}
-
-		// Update anti-quadratic guard
-		if suffixEnd > minStart {
-			minStart = suffixEnd
-		}
-
-		searchStart = pos + 1
-		if searchStart >= len(haystack) {
-			return nil
-		}
-	}
+	return NewMatch(start, end, haystack)
 }
 
 // FindIndicesAt returns match indices - zero allocation version.
@@ -377,7 +234,15 @@ func (s *ReverseSuffixSetSearcher) findIndicesAtImpl(haystack []byte, at int, re
 		// Use reverse DFA with anti-quadratic guard to find match start
 		matchStart := s.reverseDFA.SearchReverseLimited(revCache, haystack, at, suffixEnd, minStart)
 		if matchStart >= 0 {
-			return matchStart, suffixEnd, true
+			// Forward verification: the greedy match from matchStart may run over
+			// later suffix occurrences (.+(abab|babc) on "xababc" ends at 6, not 5).
+			fwdCache := s.fwdCachePool.Get().(*lazy.DFACache)
+			matchEnd := s.forwardDFA.SearchAt(fwdCache, haystack, matchStart)
+			s.fwdCachePool.Put(fwdCache)
+			if matchEnd >= 0 {
+				return matchStart, matchEnd, true
+			}
+			return s.pikevm.SearchAt(haystack, matchStart)
 		}
 		if matchStart == lazy.SearchReverseLimitedQuadratic {
 			// Quadratic behavior detected - fall back to PikeVM
